@@ -41,7 +41,8 @@ def lname(n: str) -> str:
 
 
 class ClassTr:
-    def __init__(self, repo: Path, rel: str, cls: str, skip_fields=("lock",)) -> None:
+    def __init__(self, repo: Path, rel: str, cls: str, skip_fields=("lock",), skip_extra=()) -> None:
+        self.skip_extra = set(skip_extra)
         path = repo / "src" / "pamiq_core" / rel
         try:
             self.src = path.read_text()
@@ -52,6 +53,12 @@ class ClassTr:
         if self.cls is None:
             raise Untranslatable(f"class {cls} not found")
         self.methods = {n.name: n for n in self.cls.body if isinstance(n, ast.FunctionDef)}
+        self.base_methods: dict[str, ast.FunctionDef] = {}
+        for b in self.cls.bases:
+            bn = b.id if isinstance(b, ast.Name) else None
+            bc = next((n for n in ast.walk(tree) if isinstance(n, ast.ClassDef) and n.name == bn), None)
+            if bc is not None:
+                self.base_methods = {n.name: n for n in bc.body if isinstance(n, ast.FunctionDef)}
         self.rel, self.cname = rel, cls
         self.fields: list[tuple[str, str]] = []
         self.locks: set[str] = set()
@@ -70,6 +77,8 @@ class ClassTr:
                 vt = ast.unparse(v)
                 if vt.endswith("Lock()") or vt.endswith("RLock()"):
                     self.locks.add(f)
+                    continue
+                if f in self.skip_extra:
                     continue
                 ty = "Bool" if (isinstance(v, ast.Constant) and isinstance(v.value, bool)) or vt.endswith("Event()") \
                     else "Rat"
@@ -99,7 +108,8 @@ class ClassTr:
             return f"(← getS).{lname(e.func.value.attr)}"
         if isinstance(e, ast.Call) and isinstance(e.func, ast.Attribute) and isinstance(e.func.value, ast.Name):
             owner, name = e.func.value.id, e.func.attr
-            if owner == "_original_time" and not e.args and not e.keywords:
+            if owner in ("_original_time", "time") and name in ("time", "perf_counter", "monotonic") \
+                    and not e.args and not e.keywords:
                 return "(← rd)"
             if owner == "self" and not e.args and not e.keywords and name in self.methods:
                 self.called.add(name)
@@ -172,6 +182,29 @@ class ClassTr:
                            (f", log := s.log ++ [\"{s.value.func.attr} {ev}\"]" if self.log_writes else "") + " }")
             elif isinstance(s, ast.Raise):
                 out.append(f"{ind}failure")
+            elif isinstance(s, ast.AugAssign) and isinstance(s.target, ast.Attribute) and \
+                    isinstance(s.target.value, ast.Name) and s.target.value.id == "self" and \
+                    isinstance(s.op, (ast.Add, ast.Sub)):
+                f = lname(s.target.attr)
+                o = "+" if isinstance(s.op, ast.Add) else "-"
+                self.tmp += 1
+                v = f"v{self.tmp}"
+                out.append(f"{ind}let {v} : Rat := ((← getS).{f} {o} {self.ex(s.value, 'Rat', params, locs)})")
+                out.append(f"{ind}modifyS fun s => {{ s with {f} := {v} }}")
+            elif isinstance(s, ast.For) and isinstance(s.iter, ast.Attribute) and isinstance(s.iter.value, ast.Name) \
+                    and s.iter.value.id == "self" and len(s.body) == 1 and isinstance(s.body[0], ast.Expr) \
+                    and isinstance(s.body[0].value, ast.Call) and isinstance(s.body[0].value.func, ast.Name) \
+                    and isinstance(s.target, ast.Name) and s.body[0].value.func.id == s.target.id and self.log_writes:
+                # `for cb in self._callbacks: cb()`: every registered callback, once, in order - one log entry
+                out.append(f"{ind}modifyS fun s => {{ s with log := s.log ++ [\"run {lname(s.iter.attr)}\"] }}")
+            elif isinstance(s, ast.Expr) and isinstance(s.value, ast.Call) and isinstance(s.value.func, ast.Attribute) \
+                    and isinstance(s.value.func.value, ast.Call) and isinstance(s.value.func.value.func, ast.Name) \
+                    and s.value.func.value.func.id == "super" and s.value.func.attr in self.base_methods \
+                    and not s.value.args:
+                nm = "super_" + s.value.func.attr
+                self.methods[nm] = self.base_methods[s.value.func.attr]
+                self.called.add(nm)
+                out.append(f"{ind}{nm}")
             elif isinstance(s, ast.With) and len(s.items) == 1 and isinstance(s.items[0].context_expr, ast.Attribute) \
                     and lname(s.items[0].context_expr.attr) in self.locks and self.log_writes:
                 lk = lname(s.items[0].context_expr.attr)
